@@ -106,22 +106,82 @@ func normCase(c map[string]interface{}) map[string]interface{} {
 	return out
 }
 
-// RunJobs explores all jobs in parallel.
+type workItem struct {
+	job    int
+	prefix []uint64
+}
+
+// RunJobs explores all jobs in parallel; the paths of one job are themselves
+// spread over the workers (each worker has its own term store and solver).
 func RunJobs(w *symex.World, jobs []Job, opt Options, known map[string]bool) []*JobResult {
 	res := make([]*JobResult, len(jobs))
-	ch := make(chan int)
-	var wg sync.WaitGroup
+	for i, j := range jobs {
+		res[i] = &JobResult{Job: j}
+	}
 	nw := opt.Workers
 	if nw <= 0 {
 		nw = 16
-	}
-	if nw > len(jobs) {
-		nw = len(jobs)
 	}
 	backend := smt.Backends[opt.Solver]
 	if backend.Name == "" {
 		backend = smt.Backends["z3"]
 	}
+	maxPaths := 60000
+	var mu sync.Mutex
+	cond := sync.NewCond(&mu)
+	var queue []workItem
+	for i := len(jobs) - 1; i >= 0; i-- {
+		queue = append(queue, workItem{job: i})
+	}
+	inflight := 0
+	pathCount := make([]int, len(jobs))
+	overLimit := make([]bool, len(jobs))
+	parts := make([][]*symex.Explorer, len(jobs))
+
+	pop := func(prefer int) (workItem, bool) {
+		mu.Lock()
+		defer mu.Unlock()
+		for {
+			if len(queue) > 0 {
+				idx := len(queue) - 1
+				if prefer >= 0 {
+					for k := len(queue) - 1; k >= 0 && k >= len(queue)-64; k-- {
+						if queue[k].job == prefer {
+							idx = k
+							break
+						}
+					}
+				}
+				it := queue[idx]
+				queue = append(queue[:idx], queue[idx+1:]...)
+				inflight++
+				return it, true
+			}
+			if inflight == 0 {
+				cond.Broadcast()
+				return workItem{}, false
+			}
+			cond.Wait()
+		}
+	}
+	done := func(job int, more [][]uint64) {
+		mu.Lock()
+		pathCount[job]++
+		if pathCount[job] >= maxPaths {
+			if len(more) > 0 {
+				overLimit[job] = true
+			}
+			more = nil
+		}
+		for _, p := range more {
+			queue = append(queue, workItem{job: job, prefix: p})
+		}
+		inflight--
+		mu.Unlock()
+		cond.Broadcast()
+	}
+
+	var wg sync.WaitGroup
 	for k := 0; k < nw; k++ {
 		wg.Add(1)
 		go func() {
@@ -132,48 +192,94 @@ func RunJobs(w *symex.World, jobs []Job, opt Options, known map[string]bool) []*
 					sess.Close()
 				}
 			}()
-			for i := range ch {
-				j := jobs[i]
-				st := smt.NewStore()
-				var err error
-				if sess == nil {
-					sess, err = smt.NewSession(backend, st, opt.TimeoutMs, nil)
-				} else {
-					err = sess.Reset(st, opt.TimeoutMs)
+			cur := -1
+			var ex *symex.Explorer
+			var q0, s0, u0, k0, e0 int
+			var t0 time.Duration
+			flush := func() {
+				if ex == nil {
+					return
 				}
-				if err != nil {
-					panic(err)
+				mu.Lock()
+				jr := res[cur]
+				if sess != nil {
+					jr.SolverQ += sess.Queries - q0
+					jr.SolverT += sess.Time - t0
+					jr.Sat += sess.SatN - s0
+					jr.Unsat += sess.UnsatN - u0
+					jr.Unknown += sess.UnkN - k0
+					jr.SolverEr = append(jr.SolverEr, sess.Errors[e0:]...)
 				}
-				q0, t0, s0, u0, k0 := sess.Queries, sess.Time, sess.SatN, sess.UnsatN, sess.UnkN
-				e0 := len(sess.Errors)
-				h, err := w.Harness(j.Harness)
-				jr := &JobResult{Job: j}
-				if err != nil {
-					jr.Exp = &symex.Explorer{Incon: []symex.Inconclusive{{What: err.Error()}}}
-					res[i] = jr
-					continue
+				parts[cur] = append(parts[cur], ex)
+				mu.Unlock()
+				ex = nil
+			}
+			for {
+				it, ok := pop(cur)
+				if !ok {
+					flush()
+					return
 				}
-				ex := &symex.Explorer{Prog: w.Prog, World: w, Harness: h, Case: normCase(j.Case), St: st, Sol: sess, Known: known, Ring: j.Ring, OneShotTimeoutMs: opt.OneShotMs}
-				ex.Run()
-				jr.Exp = ex
-				jr.SolverQ = sess.Queries - q0
-				jr.SolverT = sess.Time - t0
-				jr.Sat, jr.Unsat, jr.Unknown = sess.SatN-s0, sess.UnsatN-u0, sess.UnkN-k0
-				jr.SolverEr = append(jr.SolverEr, sess.Errors[e0:]...)
-				if jr.Unknown > 0 || len(jr.SolverEr) > 0 {
-					// a solver that answered unknown or printed an error may be in a bad state
+				if it.job != cur || ex == nil {
+					flush()
+					cur = it.job
+					j := jobs[cur]
+					st := smt.NewStore()
+					var err error
+					if sess == nil {
+						sess, err = smt.NewSession(backend, st, opt.TimeoutMs, nil)
+					} else {
+						err = sess.Reset(st, opt.TimeoutMs)
+					}
+					if err != nil {
+						panic(err)
+					}
+					q0, t0, s0, u0, k0, e0 = sess.Queries, sess.Time, sess.SatN, sess.UnsatN, sess.UnkN, len(sess.Errors)
+					h, herr := w.Harness(j.Harness)
+					ex = &symex.Explorer{Prog: w.Prog, World: w, Harness: h, Case: normCase(j.Case), St: st, Sol: sess, Known: known, Ring: j.Ring, OneShotTimeoutMs: opt.OneShotMs}
+					ex.Init()
+					if herr != nil {
+						ex.Incon = append(ex.Incon, symex.Inconclusive{What: herr.Error()})
+						done(cur, nil)
+						continue
+					}
+				}
+				unk0, err0 := sess.UnkN, len(sess.Errors)
+				more := ex.RunOne(it.prefix)
+				if sess.UnkN > unk0 || len(sess.Errors) > err0 {
+					// a solver that answered unknown or printed an error may be in a bad state: restart it
+					job := cur
+					flush()
 					sess.Close()
 					sess = nil
+					cur = -1
+					done(job, more)
+					continue
 				}
-				res[i] = jr
+				done(cur, more)
 			}
 		}()
 	}
-	for i := range jobs {
-		ch <- i
-	}
-	close(ch)
 	wg.Wait()
+	for i := range jobs {
+		var m *symex.Explorer
+		for _, p := range parts[i] {
+			if m == nil {
+				m = p
+			} else {
+				m.Merge(p)
+			}
+		}
+		if m == nil {
+			m = &symex.Explorer{}
+			m.Init()
+			m.Incon = append(m.Incon, symex.Inconclusive{What: "job was not executed"})
+		}
+		if overLimit[i] {
+			m.Incon = append(m.Incon, symex.Inconclusive{What: fmt.Sprintf("path limit %d reached", maxPaths)})
+		}
+		res[i].Exp = m
+	}
 	return res
 }
 
